@@ -49,7 +49,7 @@ def run_check(prop: str, tier: str, root: str, only: tuple[str, str] | None = No
         from .exc import TABLE_VERSION
 
         stats["implicit_raiser_table_version"] = TABLE_VERSION
-        return report.finish(prop, tier, seed, results, t0, stats, meta, only=only)
+        return report.finish(prop, tier, seed, results, t0, stats, meta, only=only, write=os.path.realpath(root) == os.path.realpath(REPO))
     except AnalysisError as err:
         print(f"ANALYSIS-ERROR property={prop}: {err}")
         return 2
